@@ -15,7 +15,7 @@ ASSUMPTIONS = [
     'formal differentiation is done by the encoder (chain rule through sqrt, exp, atan, tanh, sin, cos, pow); the solver decides the resulting identities over the atoms with sqrt axioms t >= 0, t^2 = x, Pythagorean identities for every sin/cos pair and exp(a) exp(-a) = 1 where both occur; exact real arithmetic',
 ]
 OUTSIDE = ['a proof of the source-term identity for 48 of the 63 classes (refutation only)', 'Culham r-derivatives and the Culham source term', 'RefinedRadius problem classes']
-BOUNDS = {'quick': 'Jacobians: 4 geometries (default and symbolic parameters); 3 gyro profiles; 9 boundary/exact-solution pairs; source-term identity: 15 classes decided, 48 refutation-only (3 explicit points each, solver caps 10 s)', 'thorough': 'same, solver caps 120 s for the refutation-only classes'}
+BOUNDS = {'quick': 'Jacobians: 4 geometries (default and symbolic parameters); 3 gyro profiles; 9 boundary/exact-solution pairs; source-term identity: 15 classes decided, 48 refutation-only (3 explicit points each, solver caps 10 s)', 'thorough': 'same, solver caps 40 s for the refutation-only classes'}
 
 
 # source-term identity.  M_PI is an opaque symbol (harness/vpi.h) and short decimal literals are read as decimals (job option
@@ -67,7 +67,7 @@ def jobs(tier, seed):
                         continue
                     J.append(dict(entry='h_source_term', args=[pr, g, prof], label=f'source term (refutation only) {PN[pr]} {PR[prof]} {GN[g]}', cls=f'source-term-{PN[pr]}-{PR[prof]}-{GN[g]}',
                                   reach=['classes-built'], eager=False, witness=True, witness_points=pts, real_ufs=True, decimal_literals=True, undecided_ok=True,
-                                  margin_rel='0.0002', cap_quick=10, cap_thorough=120, solver_budget_quick=25))
+                                  margin_rel='0.0002', cap_quick=10, cap_thorough=40, solver_budget_quick=25, solver_budget_thorough=120))
     return J
 
 
